@@ -30,6 +30,9 @@ MAGS = [
     dict(ys=50.0, zs=50.0, tx=-0.003, ty=0.008, tz=-0.041, wedge=-5.0, chi=3.3, t=(-400.0, 250.0, -310.0), dist=98765.4, wl=0.1542),
     dict(ys=75.0, zs=74.0, tx=0.05, ty=0.05, tz=0.05, wedge=12.0, chi=-7.5, t=(10.0, 10.0, 10.0), dist=250000.0, wl=0.7093),
     dict(ys=1.4, zs=1.4, tx=-0.0007, ty=-0.0011, tz=0.0003, wedge=-0.05, chi=-0.02, t=(499.0, -499.0, 499.0), dist=4000.0, wl=0.3099),
+    # set 4: the same kind of experiment written in METRES (pixel 75e-6 m, distance 0.25 m, grain offsets of 0.1 .. 0.3 mm): nothing in
+    # the formulas has a preferred length unit
+    dict(ys=75e-6, zs=-74e-6, tx=0.011, ty=-0.017, tz=0.023, wedge=1.7, chi=-0.9, t=(1.2e-4, -0.9e-4, 3.0e-4), dist=0.25, wl=0.2846),
 ]
 
 
@@ -70,6 +73,11 @@ def plan(tier, seed):
         other = 1 if mags[0] in (0, 2) else 0
         for k_ in range(16):
             shards.append(("cfg", tier, other, (5 * k_ + 1) % 64, 64))
+        for k_ in range(8):
+            shards.append(("cfg", tier, 4, (7 * k_ + 3) % 64, 64))
+    else:
+        for c in range(64):
+            shards.append(("cfg", tier, 4, c, 64))
     for c in range(4):
         shards.append(("sched", tier, mags[0], c, 4))
     for c in range(8):
